@@ -255,6 +255,117 @@ CompiledEqualsSem == \A id \in CellIds(Cases[w]) :
 HasUnpopulatedInput == \E k \in Ins(Cases[w]) : ~Populated(Cases[w], k)
 CompileOK == (SelfPath /\ HasUnpopulatedInput) \/ (FrozenIndependent /\ CompiledEqualsSem)
 
+-----------------------------------------------------------------------------
+\* ---- C10: circular references, by need ------------------------------------------
+\* A cell can be evaluated as soon as what it *needs* is known: IF needs its
+\* condition and then only the selected branch, IFERROR its value and the
+\* fallback only when the value is an error; everything else needs all operands.
+Known(W, v, id) == id \in DOMAIN v \/ ~Populated(W, id)
+RECURSIVE NK(_, _, _), NKArgs(_, _, _)
+NKArgs(W, v, args) == IF args = <<>> THEN TRUE ELSE NK(W, v, Head(args)) /\ NKArgs(W, v, Tail(args))
+NK(W, v, e) ==
+  CASE e[1] \in {"c", "miss"} -> TRUE
+    [] e[1] = "ref" -> Known(W, v, e[2])
+    [] e[1] \in {"rng", "name"} -> \A d \in ExprIds(W, e) : Known(W, v, d)
+    [] e[1] = "op" -> NK(W, v, e[3]) /\ NK(W, v, e[4])
+    [] e[1] = "un" -> NK(W, v, e[3])
+    [] e[1] = "fn" ->
+         (IF e[2] = "IF" THEN
+             NK(W, v, e[3][1]) /\
+             (LET c == Truth(Scalar(Ev(W, v, e[3][1])))
+              IN IF c.k = "e" THEN TRUE ELSE NK(W, v, IF c.b THEN e[3][2] ELSE e[3][3]))
+          ELSE IF e[2] = "IFERROR" THEN
+             NK(W, v, e[3][1]) /\
+             (IsErrLike(Scalar(Ev(W, v, e[3][1]))) => NK(W, v, e[3][2]))
+          ELSE NKArgs(W, v, e[3]))
+
+\* the ids a stuck cell is currently waiting for
+RECURSIVE Waits(_, _, _), WaitsArgs(_, _, _)
+WaitsArgs(W, v, args) == IF args = <<>> THEN {} ELSE Waits(W, v, Head(args)) \cup WaitsArgs(W, v, Tail(args))
+Waits(W, v, e) ==
+  CASE e[1] \in {"c", "miss"} -> {}
+    [] e[1] \in {"ref", "rng", "name"} -> {d \in ExprIds(W, e) : ~Known(W, v, d)}
+    [] e[1] = "op" -> Waits(W, v, e[3]) \cup Waits(W, v, e[4])
+    [] e[1] = "un" -> Waits(W, v, e[3])
+    [] e[1] = "fn" ->
+         (IF e[2] = "IF" THEN
+             (IF ~NK(W, v, e[3][1]) THEN Waits(W, v, e[3][1])
+              ELSE LET c == Truth(Scalar(Ev(W, v, e[3][1])))
+                   IN IF c.k = "e" THEN {} ELSE Waits(W, v, IF c.b THEN e[3][2] ELSE e[3][3]))
+          ELSE IF e[2] = "IFERROR" THEN
+             (IF ~NK(W, v, e[3][1]) THEN Waits(W, v, e[3][1])
+              ELSE IF IsErrLike(Scalar(Ev(W, v, e[3][1]))) THEN Waits(W, v, e[3][2]) ELSE {})
+          ELSE WaitsArgs(W, v, e[3]))
+
+LFireable(W, v, id) ==
+  /\ id \in CellIds(W) /\ id \notin DOMAIN v
+  /\ W.cells[id].k = "f"
+  /\ NK(W, v, W.cells[id].e)
+
+RECURSIVE LFix(_, _)
+LFix(W, v) ==
+  LET F == {id \in CellIds(W) : LFireable(W, v, id)}
+  IN IF F = {} THEN v
+     ELSE LFix(W, [k \in DOMAIN v \cup F |-> IF k \in F THEN EvalCell(W, v, k) ELSE v[k]])
+
+StuckWaits(W, v, id) == Waits(W, v, W.cells[id].e)
+RECURSIVE WaitClosure(_, _, _)
+WaitClosure(W, v, S) ==
+  LET S2 == S \cup UNION {StuckWaits(W, v, x) : x \in S}
+  IN IF S2 = S THEN S ELSE WaitClosure(W, v, S2)
+\* a stuck cell that (transitively) waits for itself: an unavoidable cycle
+OnCycle(W, v, id) == id \in WaitClosure(W, v, StuckWaits(W, v, id))
+
+Circ == Err("CIRC")
+\* evaluate by need; mark the cells of unavoidable cycles; go on with the mark as
+\* an ordinary error value; repeat until every cell has a value
+RECURSIVE LazyTotal(_, _)
+LazyTotal(W, v) ==
+  LET v1 == LFix(W, v)
+      stuck == CellIds(W) \ DOMAIN v1
+      cyc == {id \in stuck : OnCycle(W, v1, id)}
+  IN IF stuck = {} \/ cyc = {} THEN v1
+     ELSE LazyTotal(W, [k \in DOMAIN v1 \cup cyc |-> IF k \in cyc THEN Circ ELSE v1[k]])
+LazySem(W) == LazyTotal(W, Base(W))
+\* the cells that are marked (on an unavoidable cycle), for the expectation classes
+RECURSIVE MarkedAcc(_, _, _)
+MarkedAcc(W, v, acc) ==
+  LET v1 == LFix(W, v)
+      stuck == CellIds(W) \ DOMAIN v1
+      cyc == {id \in stuck : OnCycle(W, v1, id)}
+  IN IF stuck = {} \/ cyc = {} THEN acc
+     ELSE MarkedAcc(W, [k \in DOMAIN v1 \cup cyc |-> IF k \in cyc THEN Circ ELSE v1[k]], acc \cup cyc)
+Marked(W) == MarkedAcc(W, Base(W), {})
+
+\* what the check expects of a cell: the mark itself on a cycle; downstream of a
+\* cycle an error "as an error" (any error value); an ordinary value exactly
+Expect(W, id) ==
+  LET x == LazySem(W)[id]
+  IN IF id \in Marked(W) THEN Circ
+     ELSE IF x = Circ THEN AnyErr ELSE x
+
+\* the lazy calculation machine: any order of evaluations by need
+LInit == /\ w \in 1..Len(Cases) /\ val = Base(Cases[w])
+LFire(id) == /\ LFireable(Cases[w], val, id)
+             /\ val' = Extend(val, id, EvalCell(Cases[w], val, id))
+             /\ UNCHANGED w
+\* when nothing can fire, the cells of unavoidable cycles are marked at once
+LMark == /\ \A id \in CellIds(Cases[w]) : ~LFireable(Cases[w], val, id)
+         /\ LET cyc == {id \in CellIds(Cases[w]) \ DOMAIN val : OnCycle(Cases[w], val, id)}
+            IN /\ cyc # {}
+               /\ val' = [k \in DOMAIN val \cup cyc |-> IF k \in cyc THEN Circ ELSE val[k]]
+         /\ UNCHANGED w
+LNext == LMark \/ \E id \in CellIds(Cases[w]) : LFire(id)
+LSpec == LInit /\ [][LNext]_cvars /\ WF_cvars(LNext)
+\* every order agrees with LazySem; every cell ends with a value (termination)
+LPartial == \A id \in DOMAIN val : val[id] = LazySem(Cases[w])[id]
+LTotal == <>(\A id \in CellIds(Cases[w]) : id \in DOMAIN val)
+\* cells not downstream of any cycle hold what they hold without the cyclic cells
+EmitLazy ==
+  /\ TLCGet("stats").distinct >= 0
+  /\ JsonSerialize(IOEnv.OUT_FILE, [i \in 1..Len(Cases) |->
+        [id \in CellIds(Cases[i]) |-> Expect(Cases[i], id)]])
+
 \* the expected valuation of every case, written once for the replay harness
 EmitSem ==
   /\ TLCGet("stats").distinct >= 0
